@@ -259,6 +259,11 @@ func (b *Bed) Close() {
 	if b.Cluster != nil && b.ownCluster {
 		b.Cluster.Close()
 	}
+	if b.Cluster != nil {
+		suffix := fmt.Sprintf(":%d", b.Cluster.Port)
+		prefix := b.Cluster.Prefix
+		proxycore.VerifForgetConns(func(_, remote string) bool { return strings.HasPrefix(remote, prefix) && strings.HasSuffix(remote, suffix) })
+	}
 }
 
 // Mine reports whether a hook event belongs to this bed's cluster.
